@@ -111,9 +111,9 @@ def run(ctx):
     view = 'ViewFull' if ctx.thorough() else 'View'
     runs = [('cover', 'PrefixEmpty', 40, view)]
     if ctx.thorough():
-        runs += [('seq-hdr', 'PrefixHdr', 6, None), ('seq-trap', 'PrefixTrap', 8, None), ('seq-empty', 'PrefixEmpty', 4, None), ('seq-odd', 'PrefixOdd', 9, None)]
+        runs += [('seq-hdr', 'PrefixHdr', 6, None), ('seq-trap', 'PrefixTrap', 8, None), ('seq-empty', 'PrefixEmpty', 3, None), ('seq-odd', 'PrefixOdd', 9, None)]
     else:
-        runs += [('seq-hdr', 'PrefixHdr', 5, None), ('seq-empty', 'PrefixEmpty', 2, None), ('seq-odd', 'PrefixOdd', 8, None)]
+        runs += [('seq-hdr', 'PrefixHdr', 4, None), ('seq-empty', 'PrefixEmpty', 2, None), ('seq-odd', 'PrefixOdd', 8, None)]
     vectors = []
     seen = set()
     for (label, prefixes, maxlen, vw) in runs:
@@ -188,12 +188,20 @@ def run(ctx):
             ctx.violation('C14:genuine:error', d, 'real crash "%s" is refused: %s' % (x['scenario'], x.get('err')))
         elif res in ('panic', 'hang'):
             ctx.violation('C14:' + res, d, 'real crash "%s": telemetryCounterName %s %s' % (x['scenario'], res, x.get('panic', '')))
+        elif res == 'fixed' and not x.get('running'):
+            ctx.cov['traces_validated_against_impl'] += 1       # no running goroutine in the genuine report: the fixed name is right
         elif res == 'fixed':
             ctx.violation('C14:genuine:no-frames', d, 'real crash "%s" gives the fixed name %s' % (x['scenario'], x.get('name')))
         else:
             ctx.violation('C14:genuine:frames-differ', d,
                           'real crash "%s": the frames of the name are not the functions/lines the crashing process recorded itself' % x['scenario'])
     ctx.cov['real_crashes'] = len(reals)
+    for x in [x for x in recs if x.get('kind') == 'big']:
+        ctx.cov['evaluations'] += 1
+        ctx.cov['very_large_inputs'] = ctx.cov.get('very_large_inputs', 0) + 1
+        if x['result'] != 'ok':
+            sig = {'panic': 'C14:panic', 'hang': 'C14:hang', 'toolong': SIG[-1]}[x['result']]
+            ctx.violation(sig, x, 'very large crash text #%d (%d bytes): %s %s' % (x['i'], x['bytes'], x['result'], x.get('panic', '')))
     rrecs = [x for x in recs if x.get('kind') == 'rec']
     namb = len([x for x in rrecs if x['amb']])
     rrecs = [x for x in rrecs if not x['amb']]
